@@ -240,16 +240,36 @@ Definition data_key_xonly (k : rkey) : list N :=
 Inductive rop :=
 | RUpdate (client : N) (ups : list (act * rkey)) (fput : option nat) (send_ok : bool)
     (* fput = Some k: the k-th store Put of this call fails *)
-| RForward (to : rkey) (m : N) (send_ok : bool) (fget : bool).
-    (* send_ok: the outbound transport accepts the relay; fget: the store Get fails *)
+| RForward (to : rkey) (m : N) (send_ok : bool) (fget : bool) (fres : bool)
+    (* send_ok: the outbound transport accepts the relay; fget: the store Get fails; fres: the registrant's DID does
+       not resolve (VDR error in service.GetDestination) *)
+| RPickup (client : N) (n : nat)
+    (* the client asks the (real) message pickup service of the mediator for a batch of at most n held messages *)
+| RRestart.
+    (* the mediator process is replaced by a new service instance over the same stores *)
 
 Inductive rout :=
 | OResp (client : N) (entries : list (rkey * act * ures)) (sent : bool)   (* keylist-update-response handed to SendToDID *)
 | ORelay (did : N) (m : N)      (* relayed: outbound Forward to the destination of [did] succeeded *)
 | OHeld (did : N) (m : N)       (* Forward failed: AddMessage (m, did) on the pickup service *)
-| ODrop.                        (* error, nothing handed to anybody *)
+| ODrop                         (* error, nothing handed to anybody *)
+| OBatch (client : N) (ms : list N)   (* batch handed to SendToDID for [client] *)
+| ONoInbox (client : N)         (* pickup by a client nothing was ever held for: error, nothing sent *)
+| ORestarted.
 
 Definition rstate := list (list N * N).   (* store key -> registrant DID; Put overwrites: newest first *)
+
+(* the mediator's persistent state: the route store and the pickup service's inboxes (DID -> held messages, in
+   order; no entry = no inbox document yet) *)
+Record mstate := mkms { routes : rstate; inboxes : list (N * list N) }.
+Definition ms0 := mkms [] [].
+
+Fixpoint inbox_opt (l : list (N * list N)) (d : N) : option (list N) :=
+  match l with
+  | [] => None
+  | (d', ms) :: r => if d =? d' then Some ms else inbox_opt r d
+  end.
+Definition inbox (s : mstate) (d : N) : list N := match inbox_opt (inboxes s) d with Some l => l | None => [] end.
 
 Fixpoint route_get (s : rstate) (k : list N) : option N :=
   match s with
@@ -279,19 +299,28 @@ Fixpoint apply_updates_g (s : rstate) (client : N) (ups : list (act * rkey)) (f 
   | (AOther, _) :: r => apply_updates_g s client r f i
   end.
 
-Definition rstep_g (s : rstate) (o : rop) : rstate * rout :=
+Definition rstep_g (s : mstate) (o : rop) : mstate * rout :=
   match o with
   | RUpdate client ups f ok =>
-      let '(s', es) := apply_updates_g s client ups f 0 in (s', OResp client es ok)
-  | RForward to m ok fget =>
+      let '(r', es) := apply_updates_g (routes s) client ups f 0 in (mkms r' (inboxes s), OResp client es ok)
+  | RForward to m ok fget fres =>
       if fget then (s, ODrop) else
-      match route_get s (dk to) with
+      match route_get (routes s) (dk to) with
       | None => (s, ODrop)
-      | Some d => (s, if ok then ORelay d m else OHeld d m)
+      | Some d =>
+          if fres then (s, ODrop)
+          else if ok then (s, ORelay d m)
+          else (mkms (routes s) ((d, inbox s d ++ [m]) :: inboxes s), OHeld d m)
       end
+  | RPickup client n =>
+      match inbox_opt (inboxes s) client with
+      | None => (s, ONoInbox client)
+      | Some l => (mkms (routes s) ((client, skipn n l) :: inboxes s), OBatch client (firstn n l))
+      end
+  | RRestart => (s, ORestarted)
   end.
 
-Fixpoint rrun_g (s : rstate) (ops : list rop) : rstate * list rout :=
+Fixpoint rrun_g (s : mstate) (ops : list rop) : mstate * list rout :=
   match ops with
   | [] => (s, [])
   | o :: r => let '(s1, x) := rstep_g s o in let '(s2, xs) := rrun_g s1 r in (s2, x :: xs)
@@ -322,13 +351,29 @@ Fixpoint registrant_from (cur : option N) (h : list rop) (k : rkey) : option N :
   match h with
   | [] => cur
   | RUpdate client ups f _ :: r => registrant_from (reg_updates cur client ups f 0 k) r k
-  | RForward _ _ _ _ :: r => registrant_from cur r k
+  | RForward _ _ _ _ _ :: r => registrant_from cur r k
+  | RPickup _ _ :: r => registrant_from cur r k
+  | RRestart :: r => registrant_from cur r k
   end.
 Definition registrant := registrant_from None.
 
 (* deliveries of one output: (agent, message) *)
 Definition deliveries (x : rout) : list (N * N) :=
   match x with ORelay d m | OHeld d m => [(d, m)] | _ => [] end.
+
+(* what a client got out of the pickup service / what was put in for it, over a history *)
+Fixpoint picked_up (d : N) (outs : list rout) : list N :=
+  match outs with
+  | [] => []
+  | OBatch c ms :: r => (if d =? c then ms else []) ++ picked_up d r
+  | _ :: r => picked_up d r
+  end.
+Fixpoint held_for (d : N) (outs : list rout) : list N :=
+  match outs with
+  | [] => []
+  | OHeld c m :: r => (if d =? c then [m] else []) ++ held_for d r
+  | _ :: r => held_for d r
+  end.
 
 (* boolean statement on one history: every forward is delivered to exactly the registrant of its key, or to nobody
    when there is none / the store read fails *)
@@ -337,15 +382,15 @@ Fixpoint route_exact_from (cur_hist : list rop) (ops : list rop) (outs : list ro
   | [], [] => true
   | o :: r, x :: xs =>
       (match o with
-       | RForward to m ok fget =>
-           match (if fget then None else registrant cur_hist to), deliveries x with
+       | RForward to m ok fget fres =>
+           match (if fget || fres then None else registrant cur_hist to), deliveries x with
            | Some d, [(d', m')] => (d =? d') && (m =? m')
            | None, [] => true
            | _, _ => false
            end
-       | RUpdate _ _ _ _ => match deliveries x with [] => true | _ => false end
+       | _ => match deliveries x with [] => true | _ => false end
        end) && route_exact_from (cur_hist ++ [o]) r xs
   | _, _ => false
   end.
-Definition route_exact_g (dk : rkey -> list N) (ops : list rop) : bool := route_exact_from [] ops (snd (rrun_g dk [] ops)).
+Definition route_exact_g (dk : rkey -> list N) (ops : list rop) : bool := route_exact_from [] ops (snd (rrun_g dk ms0 ops)).
 Definition route_exact_b := route_exact_g data_key.
